@@ -39,7 +39,8 @@ class Contract:
                  modifies=None, calls=None, globals=None, props=(), yields=None, is_property=False, cls=None,
                  local_types=None, axioms=(), spec_env=None, pre_raises=None, lemmas=None, frame_objects=("self",),
                  raise_post=None, notes="", truthy_of=None, structural_eq=False, raises_type=None, trusted=False,
-                 drop_decorators=(), strict_sorts=True, cases=None, lets=None, concrete_env=None, no_monitor=False, flat=None):
+                 drop_decorators=(), strict_sorts=True, cases=None, lets=None, concrete_env=None, no_monitor=False, flat=None, defs=None):
+        self.defs = dict(defs or {})
         self.flat = dict(flat or {})
         self.concrete_env = dict(concrete_env or {})
         self.no_monitor = no_monitor
@@ -242,6 +243,21 @@ def verify_function(eng):
             st.env["old_" + nm] = st.env[nm]
         finally:
             eng.spec_mode = False
+    # ghost predicate definitions over the entry state: name -> (int parameter names, body clause)
+    for nm, (pnames, body) in c.defs.items():
+        dfn = z3.Function(f"def!{nm}", *([z3.IntSort()] * len(pnames)), z3.BoolSort())
+        bound = [z3.Int(f"{p}!d{nm}") for p in pnames]
+        saved = dict(st.env)
+        for p, b in zip(pnames, bound):
+            st.env[p] = V(TInt, b)
+        bt = eng.spec_bool(body, st)
+        st.env = saved
+        st.assume(z3.ForAll(bound, dfn(*bound) == bt, patterns=[dfn(*bound)]))
+
+        def _mk(f_):
+            return lambda eng_, args, kw, n, st_: V(TBool, f_(*[a.t for a in args]))
+
+        st.env[nm] = _mk(dfn)
     if c.yield_type is not None:
         from .types import TSeq as _TS
         from . import seqs as _SQ
